@@ -64,5 +64,93 @@ package encoder
 // module matrix, or an error
 //@ func Encoder_encode(content string, ecLevel decoder.ErrorCorrectionLevel, hints map[gozxing.EncodeHintType]interface{}) (r *QRCode, e gozxing.WriterException)
 //@   trusted
+//@   property C01 C15
+//@   opt check=asserts
+//@   globals decoder.Mode_NUMERIC, decoder.Mode_ALPHANUMERIC, decoder.Mode_BYTE, decoder.Mode_KANJI, alphanumericTable
+//@   requires len(content) <= 100000 && common.StringUtils_SHIFT_JIS_CHARSET != nil && Encoder_DEFAULT_BYTE_MODE_ENCODING != nil
+// the character count written in front of the payload describes exactly the payload that follows (the decoder reads count-many units)
+//@   assert call(appendLengthInfo,0): (mode == decoder.Mode_NUMERIC ==> dataBits.size == numericBits(numLetters)) && (mode == decoder.Mode_ALPHANUMERIC ==> dataBits.size == alnumBits(numLetters)) && (mode == decoder.Mode_BYTE ==> dataBits.size == 8 * numLetters)
 //@   ensures (r != nil) != (e != nil)
 //@   ensures r != nil ==> r.matrix != nil && r.matrix.width >= 1 && r.matrix.height >= 1 && len(r.matrix.bytes) == r.matrix.height && (forall y int :: 0 <= y && y < r.matrix.height ==> len(r.matrix.bytes[y]) == r.matrix.width)
+
+// ---------------------------------------------------------------- data segments (ISO/IEC 18004 8.4), C01 / C15
+// the encoder's alphanumeric table and the decoder's character list are inverse: 45 characters, code i <-> ALPHANUMERIC_CHARS[i]
+//@ lemma alnumTables(c int)
+//@   property C01
+//@   globals alphanumericTable, decoder.ALPHANUMERIC_CHARS
+//@   proof cases c 0 95
+//@   ensures len(alphanumericTable) == 96 && len(decoder.ALPHANUMERIC_CHARS) == 45 && -1 <= alphanumericTable[c] && alphanumericTable[c] < 45
+//@   ensures alphanumericTable[c] >= 0 ==> int(decoder.ALPHANUMERIC_CHARS[alphanumericTable[c]]) == c
+//@ lemma alnumChars(i int)
+//@   property C01
+//@   globals alphanumericTable, decoder.ALPHANUMERIC_CHARS
+//@   proof cases i 0 44
+//@   ensures int(decoder.ALPHANUMERIC_CHARS[i]) < 96 && alphanumericTable[int(decoder.ALPHANUMERIC_CHARS[i])] == i
+// packing arithmetic: three digits in 10 bits, two in 7, one in 4; two alphanumeric codes in 11 bits, one in 6 (what the decoder undoes by / and %)
+//@ lemma numericPack(a int, b int, c int)
+//@   property C01
+//@   requires 0 <= a && a <= 9 && 0 <= b && b <= 9 && 0 <= c && c <= 9
+//@   ensures a*100 + b*10 + c < 1000 && (a*100 + b*10 + c) / 100 == a && ((a*100 + b*10 + c) / 10) % 10 == b && (a*100 + b*10 + c) % 10 == c && a*10 + b < 100 && (a*10 + b) / 10 == a && (a*10 + b) % 10 == b
+//@ lemma alnumPack(a int, b int)
+//@   property C01
+//@   requires 0 <= a && a < 45 && 0 <= b && b < 45
+//@   ensures a*45 + b < 2048 && (a*45 + b) / 45 == a && (a*45 + b) % 45 == b
+
+//@ func getAlphanumericCode(code uint8) (r int)
+//@   property C01
+//@   globals alphanumericTable
+//@   ensures r == (int(code) < 96 ? alphanumericTable[code] : -1)
+//@   modifies nothing
+
+// payload bit lengths of n characters per mode (8.4.2, 8.4.3, 8.4.4)
+//@ spec func numericBits(n int) int = 10 * (n / 3) + (n % 3 == 2 ? 7 : (n % 3 == 1 ? 4 : 0))
+//@ spec func alnumBits(n int) int = 11 * (n / 2) + 6 * (n % 2)
+//@ func appendNumericBytes(content string, bits *gozxing.BitArray)
+//@   property C01
+//@   requires bits != nil && gozxing.wfBA(bits) && gozxing.padBA(bits) && len(content) <= 100000 && bits.size <= 10000000
+//@   assert call(AppendBits,0): arg1 == (int(content[i]) - 48) * 100 + (int(content[i+1]) - 48) * 10 + (int(content[i+2]) - 48) && arg2 == 10 && i + 2 < len(content)
+//@   assert call(AppendBits,1): arg1 == (int(content[i]) - 48) * 10 + (int(content[i+1]) - 48) && arg2 == 7 && i + 2 == len(content)
+//@   assert call(AppendBits,2): arg1 == int(content[i]) - 48 && arg2 == 4 && i + 1 == len(content)
+//@   ensures gozxing.wfBA(bits) && gozxing.padBA(bits) && bits.size == old(bits.size) + numericBits(len(content))
+//@   loop 0: invariant 0 <= i && i <= length && length == len(content) && gozxing.wfBA(bits) && gozxing.padBA(bits) && bits.size <= old(bits.size) + 4 * i
+//@   loop 0: invariant (i % 3 == 0 && bits.size == old(bits.size) + 10 * (i / 3)) || (i == length && bits.size == old(bits.size) + numericBits(length))
+//@   loop 0: decreases length - i
+
+//@ func appendAlphanumericBytes(content string, bits *gozxing.BitArray) (e gozxing.WriterException)
+//@   property C01
+//@   globals alphanumericTable
+//@   requires bits != nil && gozxing.wfBA(bits) && gozxing.padBA(bits) && len(content) <= 100000 && bits.size <= 10000000
+//@   assert call(AppendBits,0): code1 == getAlphanumericCodeOf(content[i]) && code2 == getAlphanumericCodeOf(content[i+1]) && code1 >= 0 && code2 >= 0 && arg1 == code1 * 45 + code2 && arg2 == 11 && i + 1 < len(content)
+//@   assert call(AppendBits,1): code1 == getAlphanumericCodeOf(content[i]) && code1 >= 0 && arg1 == code1 && arg2 == 6 && i + 1 == len(content)
+//@   ensures e == nil ==> forall k int :: 0 <= k && k < len(content) ==> getAlphanumericCodeOf(content[k]) >= 0
+//@   ensures e == nil ==> gozxing.wfBA(bits) && gozxing.padBA(bits) && bits.size == old(bits.size) + alnumBits(len(content))
+//@   loop 0: invariant 0 <= i && i <= length && length == len(content) && gozxing.wfBA(bits) && gozxing.padBA(bits) && bits.size <= old(bits.size) + 6 * i && ((i % 2 == 0 && bits.size == old(bits.size) + 11 * (i / 2)) || (i == length && bits.size == old(bits.size) + alnumBits(length))) && (forall k int :: 0 <= k && k < i ==> getAlphanumericCodeOf(content[k]) >= 0)
+//@   loop 0: decreases length - i
+//@ spec func getAlphanumericCodeOf(c uint8) int = int(c) < 96 ? alphanumericTable[c] : -1
+
+//@ func appendKanjiBytes(content string, bits *gozxing.BitArray) (e gozxing.WriterException)
+//@   property C01 C15
+//@   mode bv
+//@   requires bits != nil && gozxing.wfBA(bits) && gozxing.padBA(bits) && bits.size <= 10000000 && len(content) <= 100000 && common.StringUtils_SHIFT_JIS_CHARSET != nil
+//@   assert call(AppendBits,0): code == int(bytes[i]) * 256 + int(bytes[i+1]) && ((code >= 33088 && code <= 40956) || (code >= 57408 && code <= 60351)) && arg1 == decoder.kanjiEnc(code) && arg2 == 13
+//@   loop 0: invariant 0 <= i && i <= maxI + 1 && i % 2 == 0 && maxI == len(bytes) - 1 && len(bytes) % 2 == 0 && len(bytes) <= 10000000 && gozxing.wfBA(bits) && gozxing.padBA(bits) && bits.size <= old(bits.size) + 7 * i
+//@   loop 0: decreases maxI + 1 - i
+
+//@ func append8BitBytes(content string, bits *gozxing.BitArray, encoding textencoding.Encoding) (e gozxing.WriterException)
+//@   property C01 C15
+//@   requires bits != nil && gozxing.wfBA(bits) && gozxing.padBA(bits) && bits.size <= 10000000 && len(content) <= 100000 && encoding != nil
+//@   ensures e == nil ==> gozxing.wfBA(bits) && gozxing.padBA(bits) && bits.size >= old(bits.size) && (bits.size - old(bits.size)) % 8 == 0
+//@   internal e == nil ==> bits.size == old(bits.size) + 8 * len(bytes)
+//@   assert call(AppendBits,0): arg1 == int(bytes[rangeindex]) && arg2 == 8
+//@   loop 0: invariant -1 <= rangeindex && rangeindex < len(bytes) && len(bytes) <= 4 * len(content) + 64 && gozxing.wfBA(bits) && gozxing.padBA(bits) && bits.size == old(bits.size) + 8 * (rangeindex + 1)
+//@   loop 0: decreases len(bytes) - rangeindex
+
+// appendBytes dispatches on the mode; the payload length per mode is what the character count field must describe
+//@ func appendBytes(content string, mode *decoder.Mode, bits *gozxing.BitArray, encoding textencoding.Encoding) (e gozxing.WriterException)
+//@   property C01 C15
+//@   globals decoder.Mode_NUMERIC, decoder.Mode_ALPHANUMERIC, decoder.Mode_BYTE, decoder.Mode_KANJI, alphanumericTable
+//@   requires bits != nil && gozxing.wfBA(bits) && gozxing.padBA(bits) && bits.size <= 10000000 && len(content) <= 100000 && encoding != nil && common.StringUtils_SHIFT_JIS_CHARSET != nil
+//@   ensures e == nil && mode == decoder.Mode_NUMERIC ==> bits.size == old(bits.size) + numericBits(len(content))
+//@   ensures e == nil && mode == decoder.Mode_ALPHANUMERIC ==> bits.size == old(bits.size) + alnumBits(len(content))
+//@   ensures e == nil && mode == decoder.Mode_BYTE ==> bits.size >= old(bits.size) && (bits.size - old(bits.size)) % 8 == 0
+//@   ensures e == nil ==> mode == decoder.Mode_NUMERIC || mode == decoder.Mode_ALPHANUMERIC || mode == decoder.Mode_BYTE || mode == decoder.Mode_KANJI
